@@ -305,6 +305,24 @@ def main(argv):
             cases.append((pi, {}))					# repetition of the reference plan
             for _ in range(nplans - 1):
                 cases.append((pi, gen_perturbation(rng, pr["nalloc"])))
+        # "forced to run at every opportunity": a small program compiled with a collection at EVERY
+        # allocation - as consecutive dense blocks in separate worlds (every allocation index collects in
+        # one of them), and in the thorough tier also as one world that collects at each of its
+        # allocations from the first to the last
+        every_n = 0
+        eopts = ["-Q2", "-Fao", "-Ffm", "-Fc", "-Flsp", "-Fjava", "-Fasy", "-Fap", "-Fai"]
+        eref = run_compile(binfo, scratch, {"every.as": worlds.HELLO}, eopts, ["every.as"], {})
+        if eref.rc == 0 and not eref.timeout:
+            en = vsim.parse_log(eref.log)["z"].get("allocs", 1)
+            progs.append({"name": "every.as", "text": worlds.HELLO, "origin": "every", "opts": eopts, "ref": eref, "nalloc": en})
+            epi = len(progs) - 1
+            blk = 3000
+            for a0 in range(0, en + blk, blk):
+                cases.append((epi, {"gc": ["gc win %d %d" % (a0, blk), "gc cap %d" % blk]}))
+                every_n += 1
+            if tier != "quick":
+                cases.append((epi, {"gc": ["gc per 1 0", "gc cap %d" % (en + 10)]}))
+                every_n += 1
         # wide and shallow: many more corpus programs under a few cheap plans each (collector
         # mode, fill pattern, layout; no forced schedule) - rare layout-dependent diagnostics
         # show on few programs, so breadth matters as much as depth
@@ -349,12 +367,13 @@ def main(argv):
             if budget.over():
                 break
             results += vsim.pmap(lambda c: run_compile(binfo, scratch, files_of(progs[c[0]]["name"], progs[c[0]]["text"]),
-                                                       progs[c[0]]["opts"], [progs[c[0]]["name"]], c[1], pre=progs[c[0]].get("pre", ())), cases[b0:b0 + B])
+                                                       progs[c[0]]["opts"], [progs[c[0]]["name"]], c[1], pre=progs[c[0]].get("pre", ()),
+                                                       cpu=1200 if progs[c[0]]["origin"] == "every" else 120), cases[b0:b0 + B])
         done = len(results)
 
         # ---- batching: several files in one invocation vs one at a time -----------
         batch_cases = []
-        okprogs = [i for i, pr in enumerate(progs) if pr["ref"].rc == 0 and pr["origin"] not in ("corpus-wide", "saved") and pr["name"] not in AUX]
+        okprogs = [i for i, pr in enumerate(progs) if pr["ref"].rc == 0 and pr["origin"] not in ("corpus-wide", "saved", "every") and pr["name"] not in AUX]
         rngb = vsim.Rng(seed, "c08-batch")
         nb = 10 if tier == "quick" else 120
         bopts = ["-Q2", "-Fao", "-Ffm", "-Fc", "-Flsp"]
@@ -418,7 +437,7 @@ def main(argv):
 
             def fails(dimlist):
                 q = dict((k, p[k]) for k in dimlist)
-                rr = run_compile(binfo, scratch, files_of(pr["name"], pr["text"]), pr["opts"], [pr["name"]], q, pre=pr.get("pre", ()))
+                rr = run_compile(binfo, scratch, files_of(pr["name"], pr["text"]), pr["opts"], [pr["name"]], q, pre=pr.get("pre", ()), cpu=1200 if pr["origin"] == "every" else 120)
                 return bool(differs(rr, pr["ref"]))
             dl = dims_of(p)
             if not dl:
@@ -430,7 +449,7 @@ def main(argv):
                 else:
                     mind = dl
                 q = dict((k, p[k]) for k in mind)
-                rr = run_compile(binfo, scratch, files_of(pr["name"], pr["text"]), pr["opts"], [pr["name"]], q, pre=pr.get("pre", ()))
+                rr = run_compile(binfo, scratch, files_of(pr["name"], pr["text"]), pr["opts"], [pr["name"]], q, pre=pr.get("pre", ()), cpu=1200 if pr["origin"] == "every" else 120)
                 d2 = differs(rr, pr["ref"])
                 if not d2:
                     mind, d2 = dl, d
@@ -477,8 +496,8 @@ def main(argv):
             pr = progs[pi]
             mind, d = vinfo[ci]
             q = dict((k, p[k]) for k in mind) if mind else {}
-            r1 = run_compile(binfo, scratch, files_of(pr["name"], pr["text"]), pr["opts"], [pr["name"]], q, pre=pr.get("pre", ()))
-            r2 = run_compile(binfo, scratch, files_of(pr["name"], pr["text"]), pr["opts"], [pr["name"]], q, pre=pr.get("pre", ()))
+            r1 = run_compile(binfo, scratch, files_of(pr["name"], pr["text"]), pr["opts"], [pr["name"]], q, pre=pr.get("pre", ()), cpu=1200 if pr["origin"] == "every" else 120)
+            r2 = run_compile(binfo, scratch, files_of(pr["name"], pr["text"]), pr["opts"], [pr["name"]], q, pre=pr.get("pre", ()), cpu=1200 if pr["origin"] == "every" else 120)
             if r1.outcome_hash() != r2.outcome_hash() and mind:
                 out.nondet.append("case %d: same plan twice gives different outputs" % ci)
                 continue
@@ -498,7 +517,7 @@ def main(argv):
             "distinct_nontrivial": len(distinct) + len(batch_results),
             "rule": "per program (corpus sample validated on the current tree + generated programs) one repetition of the reference plan and seeded perturbed plans over {collection schedule, heap base, stack pad, environment size and junk variables, fill pattern, clock, pid, working-directory depth, GC_* tuning}; plus batched-vs-single invocations; distinct = distinct (program, perturbation); non-trivial = at least one dimension differs from the reference",
             "samples": [{"program": progs[c[0]]["name"], "opts": progs[c[0]]["opts"], "perturbation": c[1]} for c in cases[1:done:max(1, done // 5)]][:6],
-            "programs": len(progs), "program_origins": {"corpus": ncorpus, "generated": sum(1 for p in progs if p["origin"] == "generated"), "saved_forms_as_input": sum(1 for p in progs if p["origin"] == "saved"), "corpus_wide_shallow": nwide_kept, "libaldor_wide_shallow": nlib_kept},
+            "programs": len(progs), "program_origins": {"corpus": ncorpus, "generated": sum(1 for p in progs if p["origin"] == "generated"), "saved_forms_as_input": sum(1 for p in progs if p["origin"] == "saved"), "every_allocation_worlds": every_n, "corpus_wide_shallow": nwide_kept, "libaldor_wide_shallow": nlib_kept},
             "programs_rejected_with_same_diagnostics_kept": sum(1 for p in progs if p["ref"].rc != 0),
             "programs_dropped_by_reference_validation": dropped,
             "worlds_planned": len(cases), "worlds_run": done, "batch_groups": len(batch_results),
